@@ -1211,3 +1211,81 @@ def exit_reachable_under(fn, start, avoid, atom_value):
                 continue
         st.extend(x for x in succ if x is not None)
     return False
+
+
+# ---------------------------------------------------------------------------
+# evaluation of a constant-valued expression in one abstract state
+def const_eval(fn, e, leaf, depth=0):
+    """Value of expression e when the leaves named by `leaf(text) -> value|None` (rendered sub-expressions such as 'ec'
+    or 'm_version') have the given values: literals, ?:, !, ==/!=/</>, &&/||, bool conversions, single-definition const
+    locals and calls of repository helpers made of if/return statements are evaluated; anything else -> None."""
+    e = strip_casts(e)
+    if not is_node(e) or depth > 12:
+        return None
+    v = leaf(render(fn, e))
+    if v is not None:
+        return v
+    k = e['k']
+    if k in ('int', 'char', 'bool'):
+        return e.get('v')
+    if k == 'call' and e.get('conv') and is_node(e.get('obj')):
+        v = const_eval(fn, e['obj'], leaf, depth + 1)
+        return None if v is None else bool(v)
+    if k == 'construct' and len(e.get('args', [])) == 1:
+        return const_eval(fn, e['args'][0], leaf, depth + 1)
+    if k == 'cond':
+        c = const_eval(fn, e['c'], leaf, depth + 1)
+        if c is None:
+            return None
+        return const_eval(fn, e['a'] if c else e['b'], leaf, depth + 1)
+    if k == 'un' and e['op'] == '!':
+        v = const_eval(fn, e['e'], leaf, depth + 1)
+        return None if v is None else (not v)
+    if k == 'bin' and e['op'] in ('==', '!=', '<', '>', '<=', '>=', '&&', '||'):
+        a, b = const_eval(fn, e['lhs'], leaf, depth + 1), const_eval(fn, e['rhs'], leaf, depth + 1)
+        if e['op'] == '&&':
+            return False if (a is False or b is False) else (None if (a is None or b is None) else True)
+        if e['op'] == '||':
+            return True if (a is True or b is True) else (None if (a is None or b is None) else False)
+        if a is None or b is None:
+            return None
+        return {'==': a == b, '!=': a != b, '<': a < b, '>': a > b, '<=': a <= b, '>=': a >= b}[e['op']]
+    if k == 'ref' and e.get('dk') == 'local':
+        ds = local_defs(fn, e['did'])
+        if len(ds) == 1:
+            return const_eval(fn, ds[0][1], leaf, depth + 1)
+        return None
+    if k == 'call' and 'opc' not in e:
+        g = is_helper_call(fn, e)
+        if g is None or g.body is None:
+            return None
+        vals = [const_eval(fn, a, leaf, depth + 1) for a in e.get('args', [])]
+        penv = {p.get('name'): v for p, v in zip(g.params, vals)}
+        return _eval_body(g, g.body, lambda t: penv.get(t), depth + 1)
+    return None
+
+
+def _eval_body(g, s, leaf, depth):
+    """('return value') of a statement made of compound / if / return only; None when it cannot be decided."""
+    if not is_node(s) or depth > 12:
+        return None
+    if s['k'] == 'compound':
+        for ch in s.get('ch', []):
+            if ch['k'] in ('return', 'if', 'compound'):
+                v = _eval_body(g, ch, leaf, depth + 1)
+                if v is not None or ch['k'] == 'return':
+                    return v
+            elif ch['k'] in ('decl', 'null'):
+                continue
+            else:
+                return None
+        return None
+    if s['k'] == 'return':
+        return const_eval(g, s.get('e'), leaf, depth + 1) if s.get('e') is not None else None
+    if s['k'] == 'if':
+        c = const_eval(g, s['cond'], leaf, depth + 1)
+        if c is None:
+            return None
+        br = s.get('then') if c else s.get('else')
+        return _eval_body(g, br, leaf, depth + 1) if br is not None else None
+    return None
